@@ -16,6 +16,8 @@ A statement proved for the generic entries holds for every entry (pair of entrie
 Trusted numpy facts encoded here (A6 + NaN propagation, DESIGN section 7 / C20 "T"):
   * arithmetic ufuncs and np.clip propagate NaN; x*0 with x=+-oo is NaN; clip(+-oo) is the bound;
   * in-place ufuncs (`out=a`) with a float result into an integer/bool array raise (UFuncTypeError <: TypeError);
+  * np.nanmin/np.nanmax ignore NaN but not +-inf (finite result only without an infinite entry of that sign);
+    np.isclose(a, b) is |a-b| <= atol + rtol*|b|;
   * np.min/np.max of an empty array raise ValueError; np.quantile rejects q outside [0,1] with ValueError, an empty
     array with IndexError, is non-decreasing in q, lies between min and max, Q(0)=min, Q(1)=max;
   * np.array(a, copy=False) of an ndarray is `a` itself, copy=True a fresh array; np.asarray(a) is a; ravel is a view;
@@ -90,6 +92,9 @@ class DataGhost:
         self.has_finite = z3.Bool(ctx.fresh_name(name + "_has_finite"))
         self.distinct2 = z3.Bool(ctx.fresh_name(name + "_two_distinct_finite"))
         self.Q = z3.Function(ctx.fresh_name(name + "_quantile"), z3.RealSort(), z3.RealSort())
+        self.has_pinf = z3.Bool(ctx.fresh_name(name + "_has_pinf"))
+        self.has_ninf = z3.Bool(ctx.fresh_name(name + "_has_ninf"))
+        self.has_nan = z3.Bool(ctx.fresh_name(name + "_has_nan"))
 
     def facts(self, elems):
         """Meaning of the ghosts w.r.t. generic entries of the array (definition of min / max of the finite entries)."""
@@ -98,6 +103,9 @@ class DataGhost:
              z3.Implies(z3.And(self.has_finite, self.gmin < self.gmax), self.distinct2)]
         for e in elems:
             f.append(z3.Implies(e.finite(), z3.And(self.has_finite, self.gmin <= e.val, e.val <= self.gmax)))
+            f.append(z3.Implies(e.nan, self.has_nan))
+            f.append(z3.Implies(z3.And(z3.Not(e.nan), e.inf > 0), self.has_pinf))
+            f.append(z3.Implies(z3.And(z3.Not(e.nan), e.inf < 0), self.has_ninf))
         return f
 
 
@@ -307,7 +315,7 @@ def install(reg, dataclasses_=(), normalize_cls=None):
 
     M[np.clip] = m_clip
 
-    def _unary(name, native, dom):
+    def _unary(name, native, dom, sign=lambda t, r: []):
         def h(interp, x, out=None, **kw):
             if kw:
                 raise OutOfSubset(f"np.{name} keyword {list(kw)}")
@@ -320,15 +328,21 @@ def install(reg, dataclasses_=(), normalize_cls=None):
             if contains_sym(x):
                 t = rterm(x)
                 _domain(interp, f"{name}-argument", dom(t))
-                return Sym(reals.F[name](t))
+                r = reals.F[name](t)
+                # sign facts of the scalar result (ground instances of the A4 schemas) are put on the path right away, so
+                # that branches on e.g. `a <= 0` for a = 1/arcsinh(1/a0) are pruned instead of surviving as dead paths
+                for f in sign(t, r):
+                    interp.ctx.assume(f)
+                return Sym(r)
             return interp.native(native, x)
         return h
 
     TRUE = lambda t: z3.BoolVal(True)
-    M[np.log] = _unary("log", np.log, lambda t: t > 0)
-    M[np.exp] = _unary("exp", np.exp, TRUE)
-    M[np.sinh] = _unary("sinh", np.sinh, TRUE)
-    M[np.arcsinh] = _unary("arcsinh", np.arcsinh, TRUE)
+    odd_sign = lambda t, r: [(t > 0) == (r > 0), (t == 0) == (r == 0)]
+    M[np.log] = _unary("log", np.log, lambda t: t > 0, lambda t, r: [z3.Implies(t > 0, z3.And((t > 1) == (r > 0), (t == 1) == (r == 0)))])
+    M[np.exp] = _unary("exp", np.exp, TRUE, lambda t, r: [r > 0])
+    M[np.sinh] = _unary("sinh", np.sinh, TRUE, odd_sign)
+    M[np.arcsinh] = _unary("arcsinh", np.arcsinh, TRUE, odd_sign)
 
     def m_abs(interp, x):
         if isinstance(x, PArr):
@@ -463,6 +477,36 @@ def install(reg, dataclasses_=(), normalize_cls=None):
         return tuple(res) if isinstance(q, (tuple, list)) else res[0]
 
     M[np.quantile] = m_quantile
+
+    # nan-aware reductions skip NaN but NOT +-inf; over the reals (A1) their result is a number only if the array has a
+    # finite entry and no infinite entry of the relevant sign -> domain obligation (like log of a positive number)
+    def _nan_reduction(name, native, pick, bad_inf):
+        def h(interp, a, *rest, **kw):
+            if not isinstance(a, PArr):
+                return interp.native(native, a, *rest, **kw)
+            if rest or kw:
+                raise OutOfSubset(f"np.{name} with axis/keywords")
+            if a.data is None:
+                raise OutOfSubset(f"np.{name} of a derived array without ghost summary")
+            g = a.data
+            _domain(interp, f"{name}-result-is-a-finite-number", z3.And(g.has_finite, z3.Not(bad_inf(g))))
+            return Sym(pick(g))
+        return h
+
+    M[np.nanmin] = _nan_reduction("nanmin", np.nanmin, lambda g: g.gmin, lambda g: g.has_ninf)
+    M[np.nanmax] = _nan_reduction("nanmax", np.nanmax, lambda g: g.gmax, lambda g: g.has_pinf)
+
+    def m_isclose(interp, a, b, rtol=1e-05, atol=1e-08, equal_nan=False):
+        if isinstance(a, PArr) or isinstance(b, PArr):
+            raise OutOfSubset("np.isclose of a pointwise array")
+        if contains_sym((a, b, rtol, atol)):
+            x, y = rterm(a), rterm(b)
+            d, ay = x - y, z3.If(y >= 0, y, -y)
+            return Sym(z3.If(d >= 0, d, -d) <= rterm(atol) + rterm(rtol) * ay)  # numpy: |a - b| <= atol + rtol * |b|
+        return interp.native(np.isclose, a, b, rtol=rtol, atol=atol, equal_nan=equal_nan)
+
+    M[np.isclose] = m_isclose
+    M[np.allclose] = m_isclose
 
     # ------------------------------------------------------------------ masked arrays
     def m_masked_invalid(interp, a, copy=True):
